@@ -427,6 +427,14 @@ def _do_op(o, w, V, probe, SRTM30, cache, net, fast_log, present_before,
             V.append(_viol("C20/native-grids-of-tile",
                            f"get_native_grids(bounds of {name}) has shapes "
                            f"{la.shape}/{lo.shape}, get_grids {gla.shape}/{glo.shape}"))
+        # the caller may edit the grids it got (e.g. shift centres to cell
+        # edges for plotting); later requests must not see that
+        for arr in (la, lo, gla, glo):
+            try:
+                arr += 0.25
+            except (ValueError, TypeError):
+                pass
+        probe("caller_edits_returned_grids")
         return 0
     if kind == "get_tiles":
         rect = resolve_rect(o["rect"])
